@@ -146,6 +146,14 @@ def search(ck, budget):
     extra = ['C[C@H](N)C(=O)O', 'F/C=C/Cl', 'F/C=C\\Cl', 'C[C@@H]1CC[C@H](C)CC1', 'CC=[C@]=CC', 'C[C@]12CC[C@H](C1)C2(C)C',
              'OC[C@H]1O[C@@H](O)[C@H](O)[C@@H](O)[C@@H]1O', 'C(/F)(\\Cl)=C(/Br)I', 'F/C=C/C=C/Cl', '[C@H](F)(Cl)Br',
              'N1[C@H](C)CC1', '[C@@]1(F)(Cl)CCO1', 'C1C[C@H]1C' ]
+    # explicit hydrogens on double bonds: every choice of which substituent carries the mark at each end
+    for l1, l2 in (('[H]', 'C'), ('C', '[H]')):
+        for r1, r2 in (('[H]', 'Cl'), ('Cl', '[H]')):
+            for m1 in '/\\':
+                for m2 in '/\\':
+                    extra.append(f'{l1}{m1}C({l2})=C({m2}{r1}){r2}')
+    extra += ['[H]/C(F)=C=C=C(/[H])Cl', '[H]C(F)=[C@]=C([H])Cl', '[H]C(F)=[C@@]=C(Cl)[H]', '[H][C@](F)(Cl)Br', 'F[C@]([H])(Cl)Br', 'F[C@](Cl)([H])Br',
+              'F[C@](Cl)(Br)[H]']
     # ring-closure positions: stereocentres that carry two ring-closure digits (ring fusion, bridgehead, spiro atoms),
     # generated systematically, plus the corpus molecules that have such a centre; these get more random spellings
     import re
@@ -217,6 +225,7 @@ def search(ck, budget):
                                       'equal', 'different (RDKit)', 'RDKit canonical isomeric SMILES',
                                       replay_py=f"from chython import smiles; print(smiles({smi!r}) == smiles({mir!r}))")
     ck.extra['rdkit_agreements'] = n_ok
+    search_stereogenic(ck, pool)
     # (3) labels are kept only on stereogenic centres
     for smi, keeps in (('C[C@](C)(F)Cl', False), ('C[C@H](C)F', False), ('C[C@H](N)F', True), ('F/C=C(/Cl)Cl', False),
                        ('F/C=C/Cl', True), ('CC(C)=[C@]=CC', False), ('C[C@@H]1CC1', False), ('C/C=C/C', True)):
@@ -227,6 +236,85 @@ def search(ck, budget):
             ck.counterexample(f'stereogenic:{smi}', 'stereo label kept on a non-stereogenic centre / dropped from a stereogenic one',
                               {'smiles': smi}, has, keeps, 'by construction',
                               replay_py=f"from chython import smiles; m=smiles({smi!r}); print([a.stereo for _,a in m.atoms()])")
+
+
+CUMULENE = None
+
+
+def search_stereogenic(ck, pool):
+    """labels are kept only on stereogenic centres: a molecule in which RDKit's stereo perception (FindPotentialStereo, the
+    non-legacy algorithm, independent of chython) finds NO potential stereo element at all must not keep any label in chython;
+    on the generated spiro / duplicate-substituent families the converse is checked too (a centre RDKit keeps is kept)."""
+    from chython import smiles
+    from rdkit import Chem
+    global CUMULENE
+    CUMULENE = Chem.MolFromSmarts('*=*=*')
+    fam = []   # (smiles, family)
+    sym = {3: 'CC', 4: 'CCC', 5: 'CCCC', 6: 'CCCCC'}                    # ring symmetric about the spiro atom
+    uns = ['CCO', 'CCCO', 'COC' + 'C', 'CCNC', 'CC(C)C', 'C=CC', 'CC(=O)C' + 'C', 'CCCCO']   # rings not symmetric about it
+    for a, sa in sym.items():
+        for u in uns:
+            for mk in ('@', '@@'):
+                fam.append((f'C1{sa[1:]}[C{mk}]12{u}2', 'spiro-sym-unsym'))
+        for b, sb in sym.items():
+            fam.append((f'C1{sa[1:]}[C@]12{sb[1:]}C2', 'spiro-sym-sym'))
+    for u1 in uns[:5]:
+        for u2 in uns[:5]:
+            fam.append((f'C1{u1}[C@]12{u2}2', 'spiro-unsym-unsym'))
+    fam += [(x, 'acyclic') for x in ('C[C@](C)(F)Cl', 'CC[C@](CC)(F)Cl', 'C[C@H](C)O', 'C[C@H](CC)O', 'CC[C@](C)(F)Cl', 'F[C@](F)(Cl)Br',
+                                     'C[C@@H](N)C(=O)O', 'OC(=O)[C@H](O)C(=O)O', 'C/C=C(/C)C', 'C/C=C(/C)CC', 'F/C=C(/F)F', 'F/C=C/F',
+                                     'C[C@H]1CC1', 'C[C@H]1CCC1', 'C[C@H]1CCO1', 'C[C@@H]1CCCCC1', 'C[C@@H]1CCCC(C)C1')]
+    fam += [(x, 'corpus') for x in pool]
+    for smi, family in fam:
+        rd = Chem.MolFromSmiles(smi)
+        if rd is None:
+            continue
+        try:
+            m = smiles(smi)
+        except Exception:
+            continue
+        pot = Chem.FindPotentialStereo(rd, cleanIt=False, flagPossible=True)
+        n_pot = len(pot)
+        kept_rd = sum(1 for a in rd.GetAtoms() if a.GetChiralTag() != Chem.ChiralType.CHI_UNSPECIFIED) + \
+            sum(1 for b in rd.GetBonds() if b.GetStereo() not in (Chem.BondStereo.STEREONONE, Chem.BondStereo.STEREOANY))
+        kept_ch = sum(1 for _, a in m.atoms() if a.stereo is not None) + sum(1 for *_, bd in m.bonds() if bd.stereo is not None)
+        ck.case(('stereogenic', smi), nontrivial=family != 'corpus' or n_pot == 0)
+        ck.count(f'stereogenic:{family}')
+        if kept_ch and n_pot == 0 and (rd.HasSubstructMatch(CUMULENE) or spirane_like(rd)):
+            ck.count('stereogenic:skipped (allene/cumulene or C2-symmetric spirane: outside RDKit perception)')
+            continue
+        if kept_ch and n_pot == 0:
+            ck.counterexample(f'label-on-nonstereogenic:{smi}', 'a stereo label is kept in a molecule that has no stereogenic element at all '
+                              '(RDKit FindPotentialStereo finds none)', {'smiles': smi, 'family': family}, f'{kept_ch} label(s) kept: {m}',
+                              'no label', 'RDKit FindPotentialStereo',
+                              replay_py=f"from chython import smiles; m=smiles({smi!r}); print(str(m), [(n,a.stereo) for n,a in m.atoms() if a.stereo is not None])")
+        elif family != 'corpus' and kept_rd and not kept_ch:
+            ck.counterexample(f'label-dropped:{smi}', 'the label of a stereogenic centre (kept by RDKit) is dropped on reading',
+                              {'smiles': smi, 'family': family}, str(m), f'{kept_rd} label(s): {Chem.MolToSmiles(rd)}', 'RDKit',
+                              replay_py=f"from chython import smiles; print(smiles({smi!r}))")
+
+
+def spirane_like(rd):
+    """a ring atom with four ring neighbours that form two symmetry-equivalent pairs, each pair split over two different rings
+    (1,6-dioxaspiro[4.4]nonane): chiral although every neighbour has an equivalent partner; RDKit does not perceive it"""
+    from rdkit import Chem
+    ranks = list(Chem.CanonicalRankAtoms(rd, breakTies=False, includeChirality=False))
+    ri = rd.GetRingInfo()
+    rings = [set(r) for r in ri.AtomRings()]
+    for a in rd.GetAtoms():
+        nb = [x.GetIdx() for x in a.GetNeighbors()]
+        if len(nb) != 4:
+            continue
+        cls = sorted(ranks[x] for x in nb)
+        if not (cls[0] == cls[1] and cls[2] == cls[3] and cls[1] != cls[2]):
+            continue
+        i = a.GetIdx()
+        def same_ring(x, y):
+            return any(i in r and x in r and y in r for r in rings)
+        pairs = [(x, y) for k, x in enumerate(nb) for y in nb[k + 1:] if ranks[x] == ranks[y]]
+        if all(not same_ring(x, y) for x, y in pairs) and all(any(i in r and x in r for r in rings) for x in nb):
+            return True
+    return False
 
 
 def lost_labels(rd0, rd1):
